@@ -25,6 +25,80 @@ def sh(cmd, cwd=None, timeout=3600):
     return p.returncode, p.stdout
 
 
+def scratch_detect(w, pid, patch):
+    import re
+    os.makedirs(w, exist_ok=True)
+    if not os.path.exists(w + "/wt"):
+        rc, o = sh("git -C /repo worktree add --detach %s/wt HEAD" % w)
+        assert rc == 0, o
+    sh("rm -rf %s/harness && mkdir -p %s/harness && rsync -a --exclude target /verif/harness/ %s/harness/" % (w, w, w))
+    ct = open(w + "/harness/Cargo.toml").read()
+    ct = re.sub(r'path = "[^"]*?/lber"', 'path = "%s/wt/lber"' % w, ct)
+    ct = re.sub(r'ldap3 = \{ path = "[^"]*"', 'ldap3 = { path = "%s/wt"' % w, ct)
+    open(w + "/harness/Cargo.toml", "w").write(ct)
+    wt = w + "/wt"
+    sh("git reset -q --hard", cwd=wt)
+    head = sh("git -C /repo rev-parse HEAD")[1].strip()
+    sh("git checkout -q --detach %s" % head, cwd=wt)
+    rc, o = sh("git apply %s" % patch, cwd=wt)
+    if rc != 0:
+        rc, o = sh("git apply --3way %s" % patch, cwd=wt)
+        if rc == 0 and "conflict" in o.lower():
+            rc = 1
+    if rc != 0:
+        return {pid: {"exit": 2, "signatures": [], "wall_s": 0, "tail": "does not apply: " + o[-300:]}}
+    t0 = time.time()
+    rc, o = sh("RUSTFLAGS='--cfg ldap3_verif --cfg tokio_unstable' CARGO_TARGET_DIR=%s/target cargo build --offline --profile verif --bin vcheck" % w, cwd=w + "/harness")
+    if rc != 0:
+        sh("git reset -q --hard", cwd=wt)
+        return {pid: {"exit": 2, "signatures": [], "wall_s": 0, "tail": "harness does not build: " + o[-400:]}}
+    outp = w + "/out.json"
+    if os.path.exists(outp):
+        os.remove(outp)
+    rc, o = sh("SSL_CERT_FILE=/verif/certs/ca.pem VH_CERTS=/verif/certs timeout 2400 %s/target/verif/vcheck %s --tier quick --seed 1 --out %s" % (w, pid, outp), cwd=w)
+    sh("git reset -q --hard", cwd=wt)
+    sigs, herr = [], []
+    try:
+        doc = json.load(open(outp))
+        for l in doc["lanes"]:
+            sigs += [v["signature"] for v in l["violations"]]
+            herr += l.get("harness_errors", [])
+    except Exception:
+        return {pid: {"exit": 2, "signatures": [], "wall_s": round(time.time() - t0, 1), "tail": "no report (exit %s): %s" % (rc, o[-300:])}}
+    ex = 1 if sigs else (2 if herr else 0)
+    return {pid: {"exit": ex, "signatures": sigs[:8], "wall_s": round(time.time() - t0, 1), "tail": "; ".join(str(h)[:150] for h in herr[:2])}}
+
+
+def store(result, pid, name, patch, demo_src, out, n, meta, ran, det, tier):
+    dst = "/verif/seeded/%s-%s" % (pid, name)
+    os.makedirs(dst, exist_ok=True)
+    shutil.copy(patch, os.path.join(dst, "patch.diff"))
+    if os.path.isfile(demo_src):
+        shutil.copy(demo_src, os.path.join(dst, "demo.rs"))
+    elif os.path.isdir(os.path.join(out, "demo%s" % n)):
+        shutil.copytree(os.path.join(out, "demo%s" % n), os.path.join(dst, "demo"), dirs_exist_ok=True)
+    old = {}
+    if os.path.exists(os.path.join(dst, "meta.json")):
+        old = json.load(open(os.path.join(dst, "meta.json")))
+    if not ran and old.get("confirmed_by_me"):
+        ran = old["confirmed_by_me"]
+    meta_out = {
+        "property": pid,
+        "summary": meta.get("summary"),
+        "needs_to_manifest": meta.get("needs"),
+        "files": meta.get("files"),
+        "demo": "copy demo.rs to tests/ of a /repo worktree with patch.diff applied; `cargo test --offline --test <name>` fails with the patch and passes without",
+        "agent_verified": meta.get("verified"),
+        "confirmed_by_me": ran,
+        "checks_run": {c: {"tier": tier, "exit": d["exit"], "signatures": d["signatures"], "wall_s": d["wall_s"]} for c, d in det.items()},
+        "detected": result["detected"],
+    }
+    for k in ("sweep", "ported", "retired", "confirmation_note"):
+        if k in old:
+            meta_out[k] = old[k]
+    json.dump(meta_out, open(os.path.join(dst, "meta.json"), "w"), indent=1)
+
+
 def main():
     pid, n = sys.argv[1], sys.argv[2]
     checks = [pid]
@@ -32,6 +106,7 @@ def main():
     skip_confirm = False
     out_override = None
     store_as = None
+    scratch = None
     a = sys.argv[3:]
     i = 0
     while i < len(a):
@@ -49,6 +124,10 @@ def main():
         elif a[i] == "--as":
             i += 1
             store_as = a[i]
+        elif a[i] == "--scratch":
+            # detection against a scratch worktree of /repo's HEAD and a copy of harness/ (leaves /repo alone)
+            i += 1
+            scratch = a[i]
         i += 1
     out = out_override or "/tmp/seed/%s-out" % pid
     wt = "/tmp/seed/%s" % pid
@@ -93,6 +172,14 @@ def main():
         if not result["confirmed"]:
             print(json.dumps(result, indent=1))
             return 3
+
+    if scratch:
+        det = scratch_detect(scratch, pid, patch)
+        result["detection"] = det
+        result["detected"] = any(d["exit"] == 1 for d in det.values())
+        store(result, pid, store_as or n, patch, demo_src, out, n, meta, ran, det, tier + " (scratch worktree of HEAD + copy of harness/)")
+        print(json.dumps(result, indent=1))
+        return 0 if result["detected"] else 1
 
     # run the checks against the change
     rc, o = sh("git -C /repo status --porcelain")
